@@ -4,8 +4,10 @@ CONSTANTS
   MaxHops = 4
   MaxReq = 1
   LimitMax = 3
-  MaxDiscards = 2
+  MaxDiscards = 3
+  Layouts = {"plain", "rev", "dup"}
+  OptHops = 2
   MaxScript = 3
   Deviations = {}
-INVARIANTS TypeOK RequestIDNonEmpty TrustAndTruncate MetadataCarriesRequestID KeepsInboundTrace ParentIsCallerSpan FreshSpan OneTracePerChain UntracedIsClean Sampling0And100Exact AdaptiveWarmup ForwardMatchesContext CaptureMatchesWritten LogCarriesRequestID
+INVARIANTS TypeOK RequestIDNonEmpty TrustAndTruncate MetadataCarriesRequestID KeepsInboundTrace ParentIsCallerSpan FreshSpan OneTracePerChain UntracedIsClean Sampling0And100Exact DiscardAnyPattern AdaptiveWarmup ForwardMatchesContext CaptureMatchesWritten LogCarriesRequestID
 CHECK_DEADLOCK FALSE
